@@ -1367,7 +1367,7 @@ func implFrag(f []string, tmp string) string {
 // transform <signer> <fixture> <partial>: GetReader, read `partial` bytes, abandon; GetReader again twice.
 func implTransform(f []string, tmp string) string {
 	data := fixture(f[1])
-	p := filepath.Join(tmp, "t-"+f[1])
+	p := filepath.Join(tmp, "t-"+strings.ReplaceAll(f[1], "/", "_"))
 	if err := os.WriteFile(p, data, 0600); err != nil {
 		return "err io"
 	}
@@ -1385,7 +1385,27 @@ func implTransform(f []string, tmp string) string {
 		if mod == nil {
 			return "err no-such-signer"
 		}
-		flags, ferr := mod.FlagsFromQuery(url.Values{})
+		// optional 4th field: flags `k=v;k=v`; a value `@<text>` stands for a file holding <text> (option files that the
+		// transform ships with the upload: entitlements, Info.plist, requirements, resources)
+		q := url.Values{}
+		if len(f) > 3 && f[3] != "-" {
+			for i, kv := range strings.Split(f[3], ";") {
+				k, v, ok := strings.Cut(kv, "=")
+				if !ok {
+					return "bad-op"
+				}
+				if strings.HasPrefix(v, "@") {
+					op := filepath.Join(tmp, fmt.Sprintf("opt%d-%s", i, k))
+					if err := os.WriteFile(op, []byte(v[1:]), 0600); err != nil {
+						return "err io"
+					}
+					defer os.Remove(op)
+					v = op
+				}
+				q.Set(k, v)
+			}
+		}
+		flags, ferr := mod.FlagsFromQuery(q)
 		if ferr != nil {
 			return "err flags"
 		}
